@@ -12,14 +12,15 @@
 (*             (the VM's process table)                                    *)
 (*   ib[w]     "run" | "hold" | "drain": what the operator last asked for  *)
 (*             ("any" while such a request is being carried out)           *)
-(*   lk[c]     c was Locked with priority > 0 when the queue data the      *)
-(*             dispatcher currently holds was polled, or at some event     *)
-(*             since (lkNext: the same for a poll still under way)         *)
-(*   pass[c]   the same, frozen when the dispatcher last read its queue    *)
+(*   lk        containers that were Locked with priority > 0 when the      *)
+(*             queue data the dispatcher currently holds was polled, or at *)
+(*             some event since (lkNext: the same for a poll under way)    *)
+(*   pass      the same, frozen when the dispatcher last read its queue    *)
 (*             (Entries) and extended by later events                      *)
-(*   ever[c]   c has been Locked with priority > 0 at some event           *)
-(*   pend[c]   start decisions for c not yet followed by a process:        *)
-(*             "none" or the idle behaviours ib at the decision            *)
+(*   ever      containers that have been Locked with priority > 0          *)
+(*   pend[c]   [on, bad]: a start decision for c is not yet followed by a  *)
+(*             process; bad = the instances that were (certainly) held or  *)
+(*             draining when it was made                                   *)
 (*   mode      which reading of "currently Locked" (clause b) is judged:   *)
 (*             "exact"  scheduler-level binding: a scheduling pass is not  *)
 (*                      interleaved with anything, the queue stub is the   *)
@@ -76,37 +77,37 @@ States == {"Queued", "Locked", "Running", "Complete", "Cancelled"}
 
 Startable(c) == api[c].state = "Locked" /\ api[c].prio > 0
 NoProc(c) == \A w \in Wk : c \notin procs[w]
-NoPend == [w \in Wk |-> "none"]
+NoPend == [on |-> FALSE, bad |-> {}]
 
 DCInit(a, m) ==
     /\ api = a
     /\ procs = [w \in Wk |-> {}]
     /\ ib = [w \in Wk |-> "run"]
-    /\ lk = [c \in Ctrs |-> FALSE] /\ lkNext = [c \in Ctrs |-> FALSE] /\ pass = [c \in Ctrs |-> FALSE]
-    /\ ever = [c \in Ctrs |-> a[c].state = "Locked" /\ a[c].prio > 0]
+    /\ lk = {} /\ lkNext = {} /\ pass = {}
+    /\ ever = {c \in Ctrs : a[c].state = "Locked" /\ a[c].prio > 0}
     /\ pend = [c \in Ctrs |-> NoPend]
     /\ mode = m
 
 (* The API server's record of c changes (by anybody). *)
 ApiSetEff(c, s, p) ==
     /\ api' = [api EXCEPT ![c] = [state |-> s, prio |-> p]]
-    /\ LET now == s = "Locked" /\ p > 0 IN
-         /\ lk' = [lk EXCEPT ![c] = @ \/ now]
-         /\ lkNext' = [lkNext EXCEPT ![c] = @ \/ now]
-         /\ pass' = [pass EXCEPT ![c] = @ \/ now]
-         /\ ever' = [ever EXCEPT ![c] = @ \/ now]
+    /\ LET now == IF s = "Locked" /\ p > 0 THEN {c} ELSE {} IN
+         /\ lk' = lk \cup now
+         /\ lkNext' = lkNext \cup now
+         /\ pass' = pass \cup now
+         /\ ever' = ever \cup now
     /\ UNCHANGED <<procs, ib, pend, mode>>
 ApiSet(c, s, p) == ApiSetEff(c, s, p)
 
 (* The dispatcher's queue polls the API server ... *)
-UpdPollEff == lkNext' = [c \in Ctrs |-> Startable(c)] /\ UNCHANGED <<api, procs, ib, lk, pass, ever, pend, mode>>
+UpdPollEff == lkNext' = {c \in Ctrs : Startable(c)} /\ UNCHANGED <<api, procs, ib, lk, pass, ever, pend, mode>>
 UpdPoll == UpdPollEff
 (* ... and makes the polled data current. *)
 UpdApplyEff == lk' = lkNext /\ UNCHANGED <<api, procs, ib, lkNext, pass, ever, pend, mode>>
 UpdApply == UpdApplyEff
 
 (* Both at once (a queue whose refresh is atomic). *)
-UpdAtomicEff == /\ lk' = [c \in Ctrs |-> Startable(c)] /\ lkNext' = [c \in Ctrs |-> Startable(c)]
+UpdAtomicEff == /\ lk' = {c \in Ctrs : Startable(c)} /\ lkNext' = {c \in Ctrs : Startable(c)}
                 /\ UNCHANGED <<api, procs, ib, pass, ever, pend, mode>>
 UpdAtomic == UpdAtomicEff
 
@@ -119,22 +120,24 @@ SetIBEff(w, b) == ib' = [ib EXCEPT ![w] = b] /\ UNCHANGED <<api, procs, lk, lkNe
 SetIB(w, b) == SetIBEff(w, b)
 
 (* The dispatcher decides to start c (pool.StartContainer accepted it). *)
-(* snap = the idle behaviours in force when the decision was made ("any" for an instance whose      *)
-(* idle behaviour was being changed at that moment).                                                  *)
+(* bad = the instances held or draining when the decision was made (an instance whose idle          *)
+(* behaviour was being changed at that moment is not in it).                                          *)
 (* qs, qp = state and priority the dispatcher's queue reports for c at that moment.                    *)
-StartCallEff(c, snap) == pend' = [pend EXCEPT ![c] = snap] /\ UNCHANGED <<api, procs, ib, lk, lkNext, pass, ever, mode>>
-StartCall(c, snap, qs, qp) ==
-    /\ mode = "exact" => qs = "Locked" /\ qp > 0 /\ ever[c]      \* (b)
-    /\ mode = "sound" => pass[c]                                 \* (b)
-    /\ mode = "async" => ever[c]                                 \* (b)
+Bad == {w \in Wk : ib[w] \in {"hold", "drain"}}
+StartCallEff(c, bad) == /\ pend' = [pend EXCEPT ![c] = [on |-> TRUE, bad |-> bad]]
+                        /\ UNCHANGED <<api, procs, ib, lk, lkNext, pass, ever, mode>>
+StartCall(c, bad, qs, qp) ==
+    /\ mode = "exact" => qs = "Locked" /\ qp > 0 /\ c \in ever   \* (b)
+    /\ mode = "sound" => c \in pass                              \* (b)
+    /\ mode = "async" => c \in ever                              \* (b)
     /\ mode = "exact" => NoProc(c)                                \* (a) at the decision
-    /\ StartCallEff(c, snap)
+    /\ StartCallEff(c, bad)
 
 (* End-to-end binding: process tables are sampled when a process starts.  others = the instances     *)
 (* (w included, if an older process of c is still there) on which a live process of c was seen.       *)
 ProcStartSnap(c, w, others) ==
     /\ others = {}                                               \* (a)
-    /\ pend[c][w] \in {"run", "any"}                             \* (b) decided, (c)
+    /\ pend[c].on /\ w \notin pend[c].bad                         \* (b) decided, (c)
     /\ pend' = [pend EXCEPT ![c] = NoPend]
     /\ UNCHANGED <<api, procs, ib, lk, lkNext, pass, ever, mode>>
 
@@ -145,7 +148,7 @@ ProcStartEff(c, w) ==
     /\ UNCHANGED <<api, ib, lk, lkNext, pass, ever, mode>>
 ProcStart(c, w) ==
     /\ NoProc(c)                                                  \* (a)
-    /\ pend[c][w] \in {"run", "any"}                              \* (b) decided, (c) not held / draining then
+    /\ pend[c].on /\ w \notin pend[c].bad                         \* (b) decided, (c) not held / draining then
     /\ ProcStartEff(c, w)
 
 (* The start decision for c came to nothing (the exec failed). *)
@@ -164,9 +167,14 @@ VmGone(w) == VmGoneEff(w)
 
 (* The dispatcher process is replaced: pending decisions are void. *)
 RestartEff == /\ pend' = [c \in Ctrs |-> NoPend]
-              /\ lk' = [c \in Ctrs |-> FALSE] /\ lkNext' = [c \in Ctrs |-> FALSE] /\ pass' = [c \in Ctrs |-> FALSE]
+              /\ lk' = {} /\ lkNext' = {} /\ pass' = {}
               /\ UNCHANGED <<api, procs, ib, ever, mode>>
 Restart == RestartEff
+
+(* End-to-end binding: scheduler and pool are replaced inside one process; what the old ones had      *)
+(* already decided may still be carried out.                                                          *)
+SoftRestart == /\ lk' = {} /\ lkNext' = {} /\ pass' = {}
+               /\ UNCHANGED <<api, procs, ib, ever, pend, mode>>
 
 Other == UNCHANGED dcvars
 
